@@ -520,7 +520,7 @@ var cmdTable = []cmdCall{
 
 // splitText draws a text biased towards the split rules.
 func splitText(g G, L int, allowNL bool) string {
-	kind := g.Intn(10)
+	kind := g.Intn(11)
 	n := 0
 	switch g.Intn(6) {
 	case 0:
@@ -541,6 +541,15 @@ func splitText(g G, L int, allowNL bool) string {
 	}
 	if n > 4000 {
 		n = 4000
+	}
+	if kind == 10 {
+		// one byte (or a short unit) repeated: continuation bytes, lead bytes,
+		// dots, NUL - text in which no position looks like a place to cut
+		unit := []string{"\x80", "\xbf", "\x85", "\xa0", "\xc3", "\xe4\xb8", ".", "\x00", "\xf0\x9f", "x\x80\x80\x80\x80\x80\x80\x80\x80\x80\x80\x80"}[g.Intn(10)]
+		if n == 0 {
+			return ""
+		}
+		return strings.Repeat(unit, n/len(unit)+1)[:n]
 	}
 	if kind == 9 {
 		// valid UTF-8, mostly multi-byte, with spaces and sentence breaks: the
@@ -614,9 +623,100 @@ func splitText(g G, L int, allowNL bool) string {
 	return string(b)
 }
 
+// sendAfterFault: a write fails part-way through a line (or before its first
+// byte), the client is reconnected, and commands are issued on the new
+// connection.  Nothing of the line that failed may reach the new connection:
+// every line there is the registration or begins with the verb of a call made
+// after the reconnect.
+func sendAfterFault(e *Env, g G) {
+	e.S.Count("fault.write-fails-mid-line-then-reconnect")
+	faultAt := g.Range(3, 9)
+	short := g.Bool()
+	dial := 0
+	s := startSession(e, ClientOpts{Nick: "me", Flood: true}, func(l *simnet.Link) {
+		dial++
+		l.ChunkMode = g.Intn(4)
+		if dial == 1 {
+			l.WriteErrAtOp = faultAt
+			l.ShortWrite = short
+		}
+	})
+	discs := 0
+	s.c.HandleFunc(client.DISCONNECTED, func(*client.Conn, *client.Line) { discs++ })
+	if !s.connect() {
+		return
+	}
+	first := s.l.ID
+	texts := []string{"hello QUIT :bye", "x JOIN #evil", "a PRIVMSG #other :hi", "NICK pwned", "plain text", "tail :QUIT"}
+	for k := 0; k < 12 && discs == 0; k++ {
+		s.c.Privmsg("#chan", texts[g.S.Choose(len(texts))])
+		simrt.Sleep(time.Duration(e.S.Choose(3)) * time.Millisecond)
+	}
+	if !simrt.BlockFor("send.fault", "DISCONNECTED after the write error", 10*time.Minute, func() bool { return discs > 0 }) {
+		e.Violation("harness", "the injected write error did not end the connection\n%s", e.S.TaskDump())
+		return
+	}
+	s.ready = false
+	if err := s.c.Connect(); err != nil {
+		e.Violation("harness-connect", "reconnect failed: %v", err)
+		return
+	}
+	simrt.BlockFor("send.fault", "welcome on the new connection", time.Hour, func() bool { return s.ready })
+	type call struct {
+		verb string
+		do   func()
+	}
+	calls := []call{
+		{"NICK", func() { s.c.Nick("fresh") }},
+		{"JOIN", func() { s.c.Join("#new") }},
+		{"PRIVMSG", func() { s.c.Privmsg("#new", "after the reconnect") }},
+		{"WHO", func() { s.c.Who("#new") }},
+		{"AWAY", func() { s.c.Away("brb") }},
+	}
+	allowed := map[string]bool{"MARK": true}
+	for k := g.Range(1, 4); k > 0; k-- {
+		c := calls[g.S.Choose(len(calls))]
+		allowed[c.verb] = true
+		c.do()
+	}
+	s.c.Raw("MARK end")
+	sawMark := func() bool {
+		for i, ln := range s.lines {
+			if s.from[i] != first && ln == "MARK end" {
+				return true
+			}
+		}
+		return false
+	}
+	if !simrt.BlockFor("send.fault", "the calls on the new connection to reach the server", 10*time.Minute, sawMark) {
+		e.Violation("stall", "commands issued on the new connection did not reach the server\n%s", e.S.TaskDump())
+		return
+	}
+	simrt.Settle(5 * time.Second)
+	e.Check()
+	for i, ln := range s.lines {
+		if s.from[i] == first {
+			continue
+		}
+		verb := ln
+		if j := strings.IndexByte(ln, ' '); j >= 0 {
+			verb = ln[:j]
+		}
+		if !allowed[verb] {
+			e.Violation("second-command", "after a write error (%d bytes of the failing line accepted=%v) and a reconnect, the new connection carried %q, which is neither the registration nor a command called after the reconnect: bytes of the line that failed on the old connection", faultAt, short, clip(ln))
+			return
+		}
+	}
+	s.c.Close()
+}
+
 func sendCommands(e *Env) {
 	g := G{e.S}
 	c11 := e.Prop == "C11"
+	if !c11 && g.Pct(12) {
+		sendAfterFault(e, g)
+		return
+	}
 	s := startSession(e, ClientOpts{Nick: "me", Flood: true}, func(l *simnet.Link) {
 		l.ChunkMode = g.Intn(4)
 		l.Window = []int{0, 0, 100, 1000}[g.Intn(4)]
